@@ -253,3 +253,43 @@ def check_curve_constants(build):
         guard('basepoint', basepoint)
     # group order facts: [r]B = identity and B != identity, by the python reference law (ground arithmetic; r prime is trusted)
     return G.obs
+
+def check_group_order(build):
+    """[r] GENERATOR is the identity element (X = 0) and GENERATOR is not: the double-and-add chain over the generator literal
+    obtained from the MIR, every step a ground formula with the step's result supplied as a hint and checked by z3."""
+    items, I = interp_for(build)
+    G = Ground(build); q = FIELDS['Fq']; r = FIELDS['Fr']; d = spec.Dd
+    pat = r'^ark_curve::element::projective::<impl at [^>]*>::GENERATOR$' if build == 'ark' else r'^min_curve::element::<impl at [^>]*>::GENERATOR$'
+    try:
+        g = ev(I, find_consts(items, pat)[0])
+        if build == 'ark': gx, gy, gt, gz = [val(x) for x in g.fields[0].fields]
+        else: gx, gy, gz, gt = [val(x) for x in g.fields]
+    except Exception as e:
+        return [Ob(f'{build}:group order', 'inconclusive', f'{type(e).__name__}: {e}', 0, 'mirsym const eval')]
+    zi = pow(gz, -1, q); P = (gx * zi % q, gy * zi % q)
+    def add(p1, p2):
+        x1, y1 = p1; x2, y2 = p2
+        dd = d * x1 * x2 * y1 * y2 % q
+        return ((x1 * y2 + y1 * x2) * pow(1 + dd, -1, q) % q, (y1 * y2 + x1 * x2) * pow(1 - dd, -1, q) % q)
+    steps = []     # (p1, p2, p3)
+    acc = (0, 1); ins = P
+    k = r
+    while k:
+        if k & 1:
+            n = add(acc, ins); steps.append((acc, ins, n)); acc = n
+        k >>= 1
+        if k:
+            n = add(ins, ins); steps.append((ins, ins, n)); ins = n
+    sv = z3.Solver(); sv.set('timeout', 300000)
+    conj = []
+    for (x1, y1), (x2, y2), (x3, y3) in steps:
+        X1, Y1, X2, Y2, X3, Y3 = [z3.IntVal(v) for v in (x1, y1, x2, y2, x3, y3)]
+        dd = d * X1 * X2 * Y1 * Y2
+        conj.append(z3.And((X3 * (1 + dd) - (X1 * Y2 + Y1 * X2)) % q == 0, (Y3 * (1 - dd) - (Y1 * Y2 + X1 * X2)) % q == 0, (1 + dd) % q != 0, (1 - dd) % q != 0))
+    t0 = time.time()
+    sv.add(z3.Not(z3.And(conj + [z3.IntVal(acc[0]) == 0, z3.IntVal(P[0]) != 0])))
+    res = sv.check(); dt = time.time() - t0
+    nm = f'{build}:[r]*GENERATOR has X = 0 (identity) and GENERATOR has X != 0; {len(steps)} affine addition steps checked'
+    if res == z3.unsat: return [Ob(nm, 'proved', 'each step satisfies the Edwards addition law; final X = 0', dt, 'z3 ground', {'steps': len(steps), 'final': [hex(acc[0]), hex(acc[1])]})]
+    if res == z3.sat: return [Ob(nm, 'violated', f'[r]*GENERATOR = {acc}', dt, 'z3 ground', None, {'kind': 'order', 'build': build})]
+    return [Ob(nm, 'inconclusive', 'z3 unknown', dt, 'z3 ground')]
